@@ -269,51 +269,63 @@ func IsCanonicalUUID(s string) bool {
 
 // ---- reader -----------------------------------------------------------------------------
 
+// The document is decoded into nested structs (leaves kept as raw JSON and typed
+// by this package), so that key matching, duplicate members and null members follow
+// encoding/json exactly: the trusted JSON layer is the one every Go implementation
+// shares, and a document with duplicate or differently-cased members denotes the
+// same thing here as there.
 type rawDoc struct {
-	ID      json.RawMessage `json:"id"`
-	Version json.RawMessage `json:"version"`
-	Crypto  json.RawMessage `json:"crypto"`
+	ID      scalar    `json:"id"`
+	Version scalar    `json:"version"`
+	Crypto  rawCrypto `json:"crypto"`
 }
 
 type rawCrypto struct {
-	Cipher       json.RawMessage `json:"cipher"`
-	CipherText   json.RawMessage `json:"ciphertext"`
-	CipherParams json.RawMessage `json:"cipherparams"`
-	KDF          json.RawMessage `json:"kdf"`
-	KDFParams    json.RawMessage `json:"kdfparams"`
-	MAC          json.RawMessage `json:"mac"`
+	Cipher       scalar          `json:"cipher"`
+	CipherText   hexLeaf         `json:"ciphertext"`
+	CipherParams rawCipherParams `json:"cipherparams"`
+	KDF          scalar          `json:"kdf"`
+	KDFParams    rawKDFParams    `json:"kdfparams"`
+	MAC          hexLeaf         `json:"mac"`
 }
 
 type rawCipherParams struct {
-	IV json.RawMessage `json:"iv"`
+	IV hexLeaf `json:"iv"`
 }
 
 type rawKDFParams struct {
-	DKLen json.RawMessage `json:"dklen"`
-	N     json.RawMessage `json:"n"`
-	R     json.RawMessage `json:"r"`
-	P     json.RawMessage `json:"p"`
-	C     json.RawMessage `json:"c"`
-	PRF   json.RawMessage `json:"prf"`
-	Salt  json.RawMessage `json:"salt"`
+	DKLen scalar  `json:"dklen"`
+	N     scalar  `json:"n"`
+	R     scalar  `json:"r"`
+	P     scalar  `json:"p"`
+	C     scalar  `json:"c"`
+	PRF   scalar  `json:"prf"`
+	Salt  hexLeaf `json:"salt"`
+}
+
+// scalar keeps the raw JSON of a number/string member. As for a Go int or string, a
+// null leaves an earlier value (of a duplicate member) in place.
+type scalar struct{ raw json.RawMessage }
+
+func (l *scalar) UnmarshalJSON(b []byte) error {
+	if string(bytes.TrimSpace(b)) != "null" {
+		l.raw = append(json.RawMessage{}, b...)
+	}
+	return nil
+}
+
+// hexLeaf keeps the raw JSON of a byte-string member. As for a Go byte slice, a null
+// denotes the empty string.
+type hexLeaf struct{ raw json.RawMessage }
+
+func (l *hexLeaf) UnmarshalJSON(b []byte) error {
+	l.raw = append(json.RawMessage{}, b...)
+	return nil
 }
 
 func absent(raw json.RawMessage) bool {
 	t := bytes.TrimSpace(raw)
 	return len(t) == 0 || string(t) == "null"
-}
-
-func asObject(name string, raw json.RawMessage, into interface{}) error {
-	if absent(raw) {
-		return fmt.Errorf("%s is missing", name)
-	}
-	if t := bytes.TrimSpace(raw); t[0] != '{' {
-		return fmt.Errorf("%s is not an object", name)
-	}
-	if err := json.Unmarshal(raw, into); err != nil {
-		return fmt.Errorf("%s: %v", name, err)
-	}
-	return nil
 }
 
 func asString(name string, raw json.RawMessage) (string, error) {
@@ -410,91 +422,76 @@ func ReadOpts(file, password []byte, o Options) (*Key, error) {
 func Inspect(file []byte, o Options) (*Key, error) { return parse(file, o) }
 
 func parse(file []byte, o Options) (*Key, error) {
-	var top json.RawMessage
-	if err := json.Unmarshal(file, &top); err != nil {
-		return nil, fmt.Errorf("not JSON: %v", err)
-	}
 	var d rawDoc
-	if err := asObject("document", top, &d); err != nil {
-		return nil, err
+	if err := json.Unmarshal(file, &d); err != nil {
+		return nil, fmt.Errorf("not a JSON document of the V3 shape: %v", err)
 	}
 	k := &Key{}
 	var err error
-	if k.Version, err = asInt("version", d.Version); err != nil {
+	if k.Version, err = asInt("version", d.Version.raw); err != nil {
 		return nil, err
 	}
 	if k.Version != 3 {
 		return nil, fmt.Errorf("version %d, want 3", k.Version)
 	}
-	if !absent(d.ID) {
-		if s, err := asString("id", d.ID); err == nil {
+	if !absent(d.ID.raw) {
+		if s, err := asString("id", d.ID.raw); err == nil {
 			k.HasID, k.ID = true, s
 		}
 	}
-	var c rawCrypto
-	if err = asObject("crypto", d.Crypto, &c); err != nil {
-		return nil, err
-	}
-	if k.Cipher, err = asString("crypto.cipher", c.Cipher); err != nil && !o.IgnoreCipherName {
+	c, cp, kp := d.Crypto, d.Crypto.CipherParams, d.Crypto.KDFParams
+	if k.Cipher, err = asString("crypto.cipher", c.Cipher.raw); err != nil && !o.IgnoreCipherName {
 		return nil, err
 	}
 	if k.Cipher != CipherName && !o.IgnoreCipherName {
 		return nil, fmt.Errorf("unsupported cipher %q (want %q)", k.Cipher, CipherName)
 	}
-	var cp rawCipherParams
-	if err = asObject("crypto.cipherparams", c.CipherParams, &cp); err != nil {
-		return nil, err
-	}
-	if k.IV, err = asHex("crypto.cipherparams.iv", cp.IV); err != nil {
+	if k.IV, err = asHex("crypto.cipherparams.iv", cp.IV.raw); err != nil {
 		return nil, err
 	}
 	if len(k.IV) != 16 {
 		return nil, fmt.Errorf("iv of %d bytes, want 16", len(k.IV))
 	}
-	if k.CipherText, err = asHex("crypto.ciphertext", c.CipherText); err != nil {
+	if k.CipherText, err = asHex("crypto.ciphertext", c.CipherText.raw); err != nil {
 		return nil, err
 	}
-	if k.MAC, err = asHex("crypto.mac", c.MAC); err != nil {
+	if k.MAC, err = asHex("crypto.mac", c.MAC.raw); err != nil {
 		return nil, err
 	}
-	if k.KDF, err = asString("crypto.kdf", c.KDF); err != nil {
+	if k.KDF, err = asString("crypto.kdf", c.KDF.raw); err != nil {
 		return nil, err
 	}
 	if k.KDF != KDFScrypt && k.KDF != KDFPBKDF2 {
 		return nil, fmt.Errorf("unsupported kdf %q", k.KDF)
 	}
-	var kp rawKDFParams
-	if err = asObject("crypto.kdfparams", c.KDFParams, &kp); err != nil {
+	if k.Salt, err = asHex("kdfparams.salt", kp.Salt.raw); err != nil {
 		return nil, err
 	}
-	if k.Salt, err = asHex("kdfparams.salt", kp.Salt); err != nil {
-		return nil, err
-	}
-	if k.DKLen, err = asInt("kdfparams.dklen", kp.DKLen); err != nil {
+	if k.DKLen, err = asInt("kdfparams.dklen", kp.DKLen.raw); err != nil {
 		return nil, err
 	}
 	switch k.KDF {
 	case KDFScrypt:
-		if k.N, err = asInt("kdfparams.n", kp.N); err != nil {
+		if k.N, err = asInt("kdfparams.n", kp.N.raw); err != nil {
 			return nil, err
 		}
-		if k.R, err = asInt("kdfparams.r", kp.R); err != nil {
+		if k.R, err = asInt("kdfparams.r", kp.R.raw); err != nil {
 			return nil, err
 		}
-		if k.P, err = asInt("kdfparams.p", kp.P); err != nil {
+		if k.P, err = asInt("kdfparams.p", kp.P.raw); err != nil {
 			return nil, err
 		}
 		if err = CheckScrypt(k.N, k.R, k.P, k.DKLen); err != nil {
 			return nil, err
 		}
 	case KDFPBKDF2:
-		if k.PRF, err = asString("kdfparams.prf", kp.PRF); err != nil {
+		if k.PRF, err = asString("kdfparams.prf", kp.PRF.raw); err != nil {
 			return nil, err
 		}
 		if k.PRF != PRFName {
 			return nil, fmt.Errorf("unsupported prf %q", k.PRF)
 		}
-		if k.C, err = asInt("kdfparams.c", kp.C); err != nil {
+		if k.C, err = asInt("kdfparams.c", kp.C.raw); err != nil {
 			return nil, err
 		}
 		if err = CheckPBKDF2(k.C, k.DKLen); err != nil {
